@@ -41,6 +41,8 @@ for _n in (2043, 2044, 2045, 2046, 2047, 2048):
 # characters beyond ASCII whose low seven bits are those of a significant ASCII character (LF, CR, blank, quotes, brackets,
 # semicolon, hash, underscore, dollar): they are ordinary characters
 WORDS += ["\u4e0a", "\u4e0d\u9519", "abc\u4e0adef\nsecond line", "\u0427\u0422 x", "\u0420", "a\u0420b", "\u045b\u045d", "\u043bx", "\u0423x", "\u045fx", "\u0424x", "\u010a", "x\u0427", "\u0422y"]
+# a backslash that is not the last character of its line, followed by characters of each lexical class
+WORDS += ["Cu K\\a\nradiation", "x\\l", "\\t", "a\\_", "q\\\"", "z\\;", "\\$", "n\\#", "b\\[", "b\\}", "k\\ab\nnext", "k\\q\nnext", "k\\a \nnext", "two\\a\\b"]
 WORDS = list(dict.fromkeys(WORDS))
 
 
@@ -231,6 +233,12 @@ def c18(tier, replay=None):
         if not has_delim and not s.startswith(";"):
             forms.append(("folded text field", ";\\\n" + "\n".join(l + "\\\n" for l in lines) + "\n;"))
         forms.append(("prefixed and folded text field", ";" + P + "\\\\\n" + "\n".join(P + l + "\\\n" + P for l in lines) + "\n;"))
+        # folded only where necessary: a line is continued onto an empty one just when it ends in a backslash (and blanks),
+        # every other line - also one with a backslash further in, whatever follows it - stands as it is
+        need = lambda l: re.search(r"\\[ \t]*$", l) is not None
+        if not has_delim and not s.startswith(";"):
+            forms.append(("minimally folded text field", ";\\\n" + "\n".join((l + "\\\n") if need(l) else l for l in lines) + "\n;"))
+        forms.append(("prefixed and minimally folded text field", ";" + P + "\\\\\n" + "\n".join((P + l + "\\\n" + P) if need(l) else (P + l) for l in lines) + "\n;"))
         for what, body in forms:
             docs.append(("#\\#CIF_2.0\ndata_p\n_v\n" + body + "\n", (s, what, "_v\n")))
     from check_doc import parse_docs, observed_content
